@@ -72,6 +72,7 @@ type interpreter struct {
 	monitor          *monitor
 	lastFrame        *frame
 	sampleCtr        int
+	aliased          map[*ssa.Global]bool
 }
 
 var hooksUsedMu sync.Mutex
@@ -114,6 +115,7 @@ type frame struct {
 	panic            interface{}
 	phitemps         []value // temporaries for parallel phi assignment
 	curInstr         ssa.Instruction
+	depth            int
 }
 
 func mustDeref(t types.Type) types.Type {
@@ -158,7 +160,7 @@ func (fr *frame) get(key ssa.Value) value {
 		return constValue(key)
 	case *ssa.Global:
 		if r, ok := fr.i.globals[key]; ok {
-			if key.Pkg != nil && fr.i.skipped[key.Pkg] && !poisonExempt(key) {
+			if key.Pkg != nil && fr.i.skipped[key.Pkg] && !fr.i.aliased[key] && !poisonExempt(key) {
 				panic(unsupported("use of global %s of a package whose initialiser was not run", key))
 			}
 			return r
@@ -671,6 +673,14 @@ func callSSA(i *interpreter, caller *frame, callpos token.Pos, fn *ssa.Function,
 		panic("interp requires ssa.BuilderMode to include InstantiateGenerics to execute generics")
 	}
 
+	depth := 1
+	if caller != nil {
+		depth = caller.depth + 1
+	}
+	fr.depth = depth
+	if depth > i.opts.MaxCallDepth {
+		panic(pathAbort{kind: abortCrash, msg: fmt.Sprintf("stack overflow: call depth exceeds %d (unbounded recursion)", i.opts.MaxCallDepth)})
+	}
 	fr.env = make(map[ssa.Value]value)
 	fr.block = fn.Blocks[0]
 	fr.locals = make([]value, len(fn.Locals))
@@ -714,7 +724,11 @@ func runFrame(fr *frame) {
 				where = " in " + fr.fn.String()
 			}
 			pa := enginePanic(r)
-			pa.msg += where
+			if k := strings.IndexByte(pa.msg, '\n'); k >= 0 {
+				pa.msg = pa.msg[:k] + where + "\n  target stack:\n" + fr.i.stack() + pa.msg[k:]
+			} else {
+				pa.msg += where
+			}
 			panic(pa)
 		}
 		fr.panicking = true
@@ -871,7 +885,40 @@ func newInterpreter(cfg *Config, opts Options) (*interpreter, error) {
 	if ierr != nil {
 		return nil, ierr
 	}
+	i.aliasGlobals()
 	return i, nil
+}
+
+// globalAliases: globals of packages whose initialiser cannot be run (os) that are plain
+// aliases of globals of initialised packages. They are set after initialisation and are
+// exempt from the poison rule.
+var globalAliases = map[string]string{
+	"os.ErrInvalid":    "io/fs.ErrInvalid",
+	"os.ErrPermission": "io/fs.ErrPermission",
+	"os.ErrExist":      "io/fs.ErrExist",
+	"os.ErrNotExist":   "io/fs.ErrNotExist",
+	"os.ErrClosed":     "io/fs.ErrClosed",
+}
+
+func (i *interpreter) findGlobal(q string) *ssa.Global {
+	k := strings.LastIndexByte(q, '.')
+	pkg := i.prog.ImportedPackage(q[:k])
+	if pkg == nil {
+		return nil
+	}
+	g, _ := pkg.Members[q[k+1:]].(*ssa.Global)
+	return g
+}
+
+func (i *interpreter) aliasGlobals() {
+	i.aliased = map[*ssa.Global]bool{}
+	for dst, src := range globalAliases {
+		d, s := i.findGlobal(dst), i.findGlobal(src)
+		if d != nil && s != nil {
+			*i.globals[d] = *i.globals[s]
+			i.aliased[d] = true
+		}
+	}
 }
 
 func describePanic(i *interpreter, r interface{}) string {
